@@ -46,7 +46,7 @@ func init() {
 		for _, d := range []int{-1, 0, 5} {
 			shards = append(shards, fmt.Sprintf("seq:%d:string:2", d), fmt.Sprintf("seq:%d:int:2", d))
 		}
-		shards = append(shards, "seq:5:string:1", "seq:0:string:1")
+		shards = append(shards, "seq:5:string:1", "seq:0:string:1", "seq:5:any:2", "seq:0:named:2")
 		for _, d := range []int{-1, 0, 5} {
 			for g := 0; g < 4; g++ {
 				shards = append(shards, fmt.Sprintf("jan:%d:%d", d, g))
@@ -447,6 +447,8 @@ func (s *c08sys[V]) Key() string {
 	return sb.String()
 }
 
+type c08shout string
+
 func c08specsFor(def int, vt string, step int) *seqmc.Spec {
 	keys := []string{"x", "y", "z"}
 	if step == 1 || (vt == "int" && !thorough) {
@@ -456,6 +458,14 @@ func c08specsFor(def int, vt string, step int) *seqmc.Spec {
 		keys = append(keys, "w")
 	}
 	comp := fmt.Sprintf("Cache(default=%d,V=%s,clock-step=%d,cleanup=off)", def, vt, step)
+	switch vt {
+	case "any":
+		// V = any (the instantiation Memoize uses): what is rejected depends on the dynamic type of each value
+		return c08spec[any](comp, def, step, keys[:2], []any{"", "p", 0}, func(v any) bool { return v == "" })
+	case "named":
+		// a named string type: its empty value is not "an empty string" and is stored like any other value
+		return c08spec[c08shout](comp, def, step, keys[:2], []c08shout{"", "P"}, func(c08shout) bool { return false })
+	}
 	if vt == "int" {
 		return c08spec[int](comp, def, step, keys, []int{0, 1}, func(int) bool { return false })
 	}
